@@ -8,6 +8,7 @@ import (
 	"image"
 	"image/color"
 	"math/rand"
+	"time"
 
 	"github.com/deepteams/webp"
 	"github.com/deepteams/webp/internal/container"
@@ -281,4 +282,39 @@ func withDefaults(o webp.EncoderOptions) webp.EncoderOptions {
 func colorToNRGBA8(im image.Image, x, y int) [4]int {
 	c := color.NRGBAModel.Convert(im.At(x, y)).(color.NRGBA)
 	return [4]int{int(c.R), int(c.G), int(c.B), int(c.A)}
+}
+
+// activeRun is the run that guardedDecode reports to.
+var activeRun *vx.Run
+
+// guardedDecode is webp.Decode with a deadline: a decoder that does not return is reported as a violation of the
+// property under check (no hang is ever allowed) and the check ends at once, because the stuck goroutine cannot be
+// stopped and would distort everything measured afterwards.
+func guardedDecode(data []byte) (image.Image, error) {
+	type res struct {
+		im  image.Image
+		err error
+	}
+	ch := make(chan res, 1)
+	go func() {
+		defer func() {
+			if r := recover(); r != nil {
+				ch <- res{nil, fmt.Errorf("panic: %v", r)}
+			}
+		}()
+		im, err := webp.Decode(bytes.NewReader(data))
+		ch <- res{im, err}
+	}()
+	limit := 60*time.Second + time.Duration(len(data))*time.Microsecond
+	select {
+	case r := <-ch:
+		return r.im, r.err
+	case <-time.After(limit):
+		if activeRun != nil {
+			activeRun.Violate("hang|webp.Decode", fmt.Sprintf("webp.Decode did not return within %v on a %d-byte input", limit, len(data)), map[string]any{"bytes": data})
+			activeRun.Finish()
+		}
+		vx.Fatal2("webp.Decode hangs")
+		return nil, nil
+	}
 }
